@@ -98,11 +98,11 @@ def run(spec, pid, tier, seed, replay=None):
     elif tally.disagreements or proof_broken:
         # the tie (or a proof obligation) is broken: search wider for a failing input
         found = None
-        for extra in range(1, 4 if tier == "quick" else 8):
+        for extra in range(1, 3 if tier == "quick" else 5):
             t3 = core.Tally(pid, known)
             for g in spec["groups"]:
                 req, resp = core.pipeline("%s.%s.s%d" % (pid, g, extra),
-                                          [core.TGH, g, "--tier", "thorough" if extra > 1 else tier,
+                                          [core.TGH, g, "--tier", tier,
                                            "--seed", str(seed * 1000 + extra)])
                 t3.consume(g, req, resp)
             tally.evaluations += t3.evaluations
